@@ -122,7 +122,7 @@ def hidden_q(q):
 
 
 def shown(q):
-    return not hidden_q(q) and q["type"] not in F.NO_CTL
+    return not hidden_q(q) and F.has_ctl(q["type"])
 
 
 def abs_sub(text, paths):
@@ -175,7 +175,8 @@ def form_case(ctx, els, directed=None):
     r = impl.run(form)
     m = ctx.driver.call("defaults.model", els=F.model_els(els), root="data")
     ctx.count(f"form:impl:{r['class']}/model:{m['outcome']}")
-    walked = list(F.walk(els))
+    # the oracle reasons about what xls2json stores: a photo's default is prefixed with jr://images/
+    walked = [(dict(q, default=F.image_default(q["type"], q["default"])), p, reps) for q, p, reps in F.walk(els)]
     has_mech = any(q["default"] or q["trigger"] for q, _, _ in walked)
     if m["outcome"] == "unsupported":
         ctx.count("form:unsupported:" + m.get("why", ""))
@@ -371,6 +372,13 @@ def explore(ctx, factor, bs):
     if factor == 1:
         for els in directed_forms():
             form_case(ctx, els)
+        # every type of the type table × dynamic / static default × no logic columns, outside and inside sections
+        for i, t in enumerate(F.enumerable_types()):
+            x = q("x", t, default="now()")
+            form_case(ctx, [q("a"), x])
+            y = q("y", t, default=["abc", "2020-01-01", "7", "a.png"][i % 4])
+            inner = [q("a"), dict(x), y]
+            form_case(ctx, [{"k": ["grp", "rep"][i % 2], "name": "s", "kids": inner}, q("z", t, default="1 + 1", labelled=F.has_ctl(t))])
     n = ctx.pick(2000, 40000) * factor
     for _ in range(n):
         g = F.Gen(rng, big=not ctx.quick())
